@@ -101,9 +101,10 @@ def adm_suite(ctx, vh, name, args, goclient=False):
     rows, stray = once()
     if rows is None:
         return
-    envish = [r for r in rows if r["resp"] in ENV_RESP]
+    envish = [r for r in rows if r["resp"] in ENV_RESP or r.get("slow")]
     if envish:
-        ctx.note("%s: %d cases ended in %s; suite repeated once" % (name, len(envish), sorted({r["resp"] for r in envish})))
+        ctx.note("%s: %d cases ended in %s or ran on a stalled machine; suite repeated once"
+                 % (name, len(envish), sorted({r["resp"] for r in envish})))
         ctx.indeterminate += len(envish)
         rows, stray = once()
         if rows is None:
